@@ -78,8 +78,10 @@ theorem no_creation_while_paused (sp : Spec) (w : World) (ev : Event)
                 · split
                   · simp [ids, setTask_ids]
                   · split
-                    · exact (completeTask_inert sp _ r _ (by simpa using hinert)).1
-                    · rfl
+                    · refine ((completeTask_inert sp _ _ _ ?_).1).trans ?_
+                      · simpa using hinert
+                      · simp [ids, setTask_ids]
+                    · simp [ids, setTask_ids]
 
 /-- While PAUSED, only `resume` and `stop` change the workflow state. -/
 theorem paused_stays_paused (sp : Spec) (w : World) (ev : Event) (hp : w.wf = .PAUSED)
@@ -139,7 +141,9 @@ theorem paused_stays_paused (sp : Spec) (w : World) (ev : Event) (hp : w.wf = .P
                 · split
                   · exact hp
                   · split
-                    · rw [(completeTask_inert sp _ r _ (by simpa using hinert)).2]; exact hp
+                    · refine ((completeTask_inert sp _ _ _ ?_).2).trans ?_
+                      · simpa using hinert
+                      · exact hp
                     · exact hp
 
 /-- non-vacuity: a reachable PAUSED world with work in flight (start, one task started,
